@@ -1921,6 +1921,12 @@ class Translator:
                 self.out('%s %s = %s;' % (base, name, self.e(init[-1])))
                 self.propagate()
                 return
+            if base == 'c_opaque':
+                # a reference to an unmodelled object: the placeholder value is evaluated once (the object is never read)
+                self.locals[v['id']] = name
+                self.out('%s %s = %s;' % (base, name, self.e(init[-1])))
+                self.propagate()
+                return
             if True:
                 # reference to an lvalue: translated by substitution of the referent expression (CBMC supports
                 # neither pointers into arrays of mathematical reals nor pointers to members that follow an
